@@ -18,6 +18,10 @@ def gen_dir(rng, depth, max_depth, counter, force_index=False):
     npages = rng.randint(0, 4)
     for _ in range(npages):
         stem = names.pop()
+        if rng.random() < 0.08:
+            stem = stem + " " + rng.choice(["notes", "two words", "x y"])   # a blank in the file name
+        elif rng.random() < 0.05:
+            stem = stem + "_Mixed-Case9"
         if rng.random() < 0.12:
             # a dotted page name (release notes "abc.v2.md"), possibly next to "abc.md"
             base = rng.choice(list(d["pages"]) + [stem]).split(".")[0]
@@ -57,6 +61,7 @@ def gen_dir(rng, depth, max_depth, counter, force_index=False):
 
 
 ACCENT = False
+ACCENT_LATIN1_ONLY = False
 
 
 def gen_page(rng, counter, titled=True):
@@ -136,7 +141,7 @@ def page_text(rel, page):
     if not L:
         L.append("")  # no metadata at all: body starts after a blank line
     L.append("")
-    L.append("Body of page %d pgtracer%dq." % (page["n"], page["n"]))
+    L.append("Body of page %d pgtracer%dq%s." % (page["n"], page["n"], " caf\u00e9 \u2192 na\u00efve" if page["n"] % 3 == 0 and not ACCENT_LATIN1_ONLY else ""))
     L.append("")
     depth = rel.count("/")
     for kind, tgt in page.get("links", []):
